@@ -16,14 +16,14 @@ CHECKS = {
  "C13": ("reference-model monitor (map keyed by bit string, brute-force longest match / covered set / order) over random lpm.Trie histories + persistence re-verification; race detector slice",
          "Exploration: seeded random histories over key widths 16/32/128 with prefixes nesting and diverging at every bit, Reuse/Clear, abandoned transactions and side branches; every Insert/Delete/Lookup/LookupExact/Prefix/LowerBound/All/Len result and every retained trie/iterator is compared with the model.",
          "Trusts the bit-string model; Lookup is asked only with full-length keys and stored prefixes (the domain of the statement).", "5/C13"),
- "C17": ("reference-model monitor (Go map/set) over branching histories on a pool of part.Map/part.Set versions, JSON/YAML round trips; race detector on shared values",
+ "C17": ("reference-model monitor (Go map/set) over branching histories on a pool of part.Map/part.Set versions, JSON/YAML round trips (also into used destinations); every registered key type over hostile values; race detector on shared values",
          "Exploration: seeded branching histories (every step derives from a random earlier version; sizes biased to 0..2 so each representation switch is crossed by every operator pair; MapTxn reuse after Commit interleaved with operations on the committed map; early-break iteration) with every pooled version re-verified after every step; plus 8 goroutines sharing one value under -race.",
          "Trusts the Go map model; string keys are valid UTF-8; only encoder-produced JSON/YAML is decoded.", "5/C17"),
  "C18": ("bounded-exhaustive enumeration monitor: encoded composite keys of all enumerated (secondary, primary) pairs must be strictly increasing in specification order and split back; black-box order read-back through List/Prefix/LowerBound; encoder domains",
-         "Exploration with a bounded-exhaustive core: all pairs of byte strings of length 0..3 over {00,01,02,ff} (quick; 0..4 over {00,01,02,7f,ff} thorough) are encoded with the real encoder (exposed under the verif tag) and compared in specification order, which decides injectivity and order preservation for every pair of the enumerated space; Uint16 over its whole domain, 32/64-bit encoders over boundary sets and seeded samples, LPM keys for all prefix lengths 0..32 x sampled words. Long primaries are probed at listed lengths only.",
+         "Exploration with a bounded-exhaustive core: all pairs of byte strings of length 0..3 over {00,01,02,ff} (quick; 0..4 over {00,01,02,7f,ff} thorough) are encoded with the real encoder (exposed under the verif tag) and compared in specification order, which decides injectivity and order preservation for every pair of the enumerated space; Uint16 over its whole domain, Int over the whole domain of int, all six decimal string parsers inside and outside their domains, index.Set keys, 32/64-bit encoders over boundary sets and seeded samples, LPM keys for all prefix lengths 0..32 x sampled words. Long primaries are probed at listed lengths only.",
          "The enumerated space is small by design (short strings); long keys only at the listed probe lengths (those failing are known findings D9). Signed encoders are only checked for injectivity, as the statement says.", "5/C18"),
  "C20": ("virtual-time (testing/synctest) monitor comparing return time, returned set, error and Has() of WatchSet.Wait with an executable model over random close/cancel/settle schedules, earlier results re-read after later calls; concurrent Wait/Add/Has on one set under the race detector with an exactly-once oracle over all returned channels",
-         "Exploration: seeded random schedules run under virtual time so that return instants are exact; up to three consecutive Wait calls per set; sets built with Add duplicates, Clear and Merge; all three settle regimes and cancellation before/after the first close; plus real-time runs under -race in which 2-4 goroutines call Wait on one set while others add, close and probe (every channel returned at most once, only added and closed ones, membership afterwards).",
+         "Exploration: seeded random schedules run under virtual time so that return instants are exact; up to three consecutive Wait calls per set; sets built with Add duplicates, Clear and Merge, a quarter with a nil member; contexts of four kinds (cancel, cancel with cause, deadline, deadline with cause); all three settle regimes and cancellation before/after the first close; plus real-time runs under -race in which 2-4 goroutines call Wait on one set while others add, close and probe (every channel returned at most once, only added and closed ones, membership afterwards).",
          "Event times are kept distinct so the model has no ties; real-timer granularity is out of scope (virtual time); in the concurrent part a closed member not returned within 30 s of wall-clock time is reported inconclusive, not as a violation.", "5/C20"),
  "C01": ("transcript monitor: retained snapshots (and retained result sequences) are re-queried after every later transaction/abort/collection window and compared with the transcript recorded at creation and with the model of that snapshot; virtual time for graveyard collection; race detector with concurrent snapshot readers, a writer and a table registrar",
          "Exploration: seeded random histories under testing/synctest with the DB started; up to 16 retained snapshots per history taken between transactions (transcripts include Initialized/PendingInitializers; transactions register and complete initializers), while a write transaction is pending and from Commit; LPM-heavy variant with several objects per prefix; table registrations running into commits; plus a -race part where 6 readers rebuild the model from each snapshot's primary index, check every index against it and keep re-verifying retained transcripts (and the set of tables) while a writer history and a registrar run.",
@@ -62,10 +62,10 @@ CHECKS = {
          "Exploration: seeded random runs over configurations (single/batch, round size 1/2/3/1000, limiter none/10 ms, four backoff settings, refresh and pruning on/off) with per-call failures, writes injected inside operations and between the operation and the status commit, status-only writes by a simulated second reconciler, and in a third of the runs 1-4 further real reconcilers (own status slot, target and failures) on the same table, each held to the same convergence obligations; liveness is restated as bounded progress in virtual time.",
          "Bound: 2 x RetryBackoffMax + (objects+5) x (limiter interval + 35 ms) + 1 s of virtual time; with refreshing enabled a Refreshing status at the final instant is accepted.", "5/C14"),
  "C15": ("virtual-time monitor over the attempt log and user-write log of the real reconciler: table == latest user writes, statuses backed by attempts, foreign statuses preserved, Update/Prune call preconditions",
-         "Exploration: the C14 runs with every placement of user writes {between rounds, inside Update/Delete/UpdateBatch, between the operation and the status commit} x {update, delete, delete+re-insert, status-only by a second reconciler} x {success, failure}; invariants evaluated at every quiescent point; in a third of the runs 1-4 further real reconcilers share the table (their statuses must be backed by their own attempts); plus a value-semantics part for StatusSet (Set/Pending/JSON on a pool of versions, every earlier version re-read).",
+         "Exploration: the C14 runs with every placement of user writes {between rounds, inside Update/Delete/UpdateBatch, between the operation and the status commit} x {update, delete, delete+re-insert, status-only by a second reconciler} x {success, failure}; invariants evaluated at every quiescent point; a third of the runs use a copy-returning status setter; sequential runs in which user transactions keep the table locked for a while of virtual time while the reconciler and the refresher wait (hook gate); in a third of the runs 1-4 further real reconcilers share the table (their statuses must be backed by their own attempts); plus a value-semantics part for StatusSet (Set/Pending/JSON on a pool of versions, every earlier version re-read).",
          "The model of user writes is updated under the table lock; quiescent points are synctest.Wait() after sleeping.", "5/C15"),
  "C16": ("virtual-time monitor over the timestamps of operation attempts and the values returned by WaitUntilReconciled, exact in pacing runs",
-         "Exploration: general runs check the lower bound (no retry sooner than RetryBackoffMin) and that WaitUntilReconciled(rev) never returns nil before every still-current change <= rev was attempted; pacing runs (instantaneous operations, unlimited limiter) check non-shrinking waits, the cap, the fresh first wait after change/success and the exact low-watermark at quiescent points.",
+         "Exploration: general runs check the lower bound (no retry sooner than RetryBackoffMin), that WaitUntilReconciled(rev) never returns nil before every still-current change <= rev was attempted, and every returned zero watermark against the round log (an untouched object that failed three rounds ago must show); pacing runs (instantaneous operations, unlimited limiter) check non-shrinking waits, the cap, the fresh first wait after change/success and the exact low-watermark at quiescent points.",
          "A status-only write by another reconciler between a failure and the next attempt makes that pair unjudged (both immediate reprocessing and paced retry are legitimate); the lower bound is judged in runs without refreshing and without further real reconcilers (their writes are not in the event log) and exactly in the pacing runs; 'change up to rev' is read by revision: an object that another writer moved to a revision above rev is a later change; watermark model = revision argument of the oldest pending failed attempt.", "5/C16"),
 }
 
